@@ -4,6 +4,7 @@ import (
 	"bytes"
 	"context"
 	"errors"
+	"fmt"
 	"io"
 
 	"github.com/asticode/go-astikit"
@@ -409,6 +410,21 @@ func (m *Muxer) generatePMT() error {
 	}
 	if !hasPCRPID {
 		return ErrPCRPIDInvalid
+	}
+
+	// The section length is a uint16 below: make sure it can't wrap around, a section is at most 1021 bytes long anyway
+	size := 4
+	for _, d := range m.pmt.ProgramDescriptors {
+		size += 2 + int(calcDescriptorLength(d))
+	}
+	for _, es := range m.pmt.ElementaryStreams {
+		size += 5
+		for _, d := range es.ElementaryStreamDescriptors {
+			size += 2 + int(calcDescriptorLength(d))
+		}
+	}
+	if size > 1021-9 {
+		return fmt.Errorf("astits: PMT section of %d bytes is too large", size+9)
 	}
 
 	versionNumber := m.pmtVersion.get()
